@@ -412,6 +412,7 @@ fn rel_names(d: &Value) -> Vec<String> {
 
 fn replay_chunk(cases: &[Value], rep: &mut Report) {
   for (ci, case) in cases.iter().enumerate() {
+    note_case(case);
     let kind = s(&case["kind"]);
     let d0 = if kind == "state" { &case["doc"] } else { &case["pre"] };
     let maps = rel_maps(&rel_names(d0));
